@@ -213,6 +213,26 @@ func Arg[T any](t *FT, pos, i int) T {
 	case ty.Kind() == reflect.Float64 && i == 5:
 		v.SetFloat(math.Copysign(0, -1))
 		return asT[T](v)
+	case (ty.Kind() == reflect.Complex128 || ty.Kind() == reflect.Complex64) && (i == 4 || i == 5):
+		// == values that differ only in the sign of a zero imaginary (4/5) part
+		v.SetComplex(complex(1, signedZero(i == 5)))
+		return asT[T](v)
+	case ty.Kind() == reflect.Slice && (i == 4 || i == 5 || i == 6):
+		// lists holding +0 / -0 (real for floats; imaginary, then real part for complex numbers)
+		switch ty.Elem().Kind() {
+		case reflect.Float64, reflect.Float32:
+			if i < 6 {
+				l := reflect.MakeSlice(ty, 2, 2)
+				l.Index(0).SetFloat(signedZero(i == 5))
+				l.Index(1).SetFloat(2)
+				return asT[T](l)
+			}
+		case reflect.Complex128, reflect.Complex64:
+			l := reflect.MakeSlice(ty, 2, 2)
+			l.Index(0).SetComplex(complex(1, signedZero(i == 5)))
+			l.Index(1).SetComplex(complex(signedZero(i == 6), 3))
+			return asT[T](l)
+		}
 	}
 	// small integer kinds: their extreme and negative values (vectors 2/3)
 	switch ty.Kind() {
@@ -239,6 +259,13 @@ func Arg[T any](t *FT, pos, i int) T {
 		v.SetString(fmt.Sprintf("%s#p%d", v.String(), pos))
 	}
 	return asT[T](v)
+}
+
+func signedZero(neg bool) float64 {
+	if neg {
+		return math.Copysign(0, -1)
+	}
+	return 0
 }
 
 // Reset clears the call log and the injected failures.
